@@ -524,10 +524,8 @@ func (rt *runtime) convertCallParameter(v Value, t reflect.Type) (reflect.Value,
 					}
 				}
 
-				rv, err := v.Call(nullValue, l...)
-				if err != nil {
-					panic(err)
-				}
+				// An exception thrown by the callback propagates to the script that called the Go function.
+				rv := v.call(rt, nullValue, l...)
 
 				if t.NumOut() == 0 {
 					return nil
